@@ -357,6 +357,11 @@ def main(argv=None):
     return report(prop, a.tier, seed, results, known, assumed, t0, a.v)
 
 
+def _safe_name(n: str) -> str:
+    """File name for a replay file: no path separators and no white space (the VIOLATION line is `replay=<path>`)."""
+    return "".join(ch if (ch.isalnum() or ch in "._-@#:+=,[]()") else "_" for ch in n)
+
+
 def report(prop, tier, seed, results, known, assumed, t0, verbose):
     n_obl = n_dis = 0
     violations, undecided, errors, known_lines = [], [], [], []
@@ -405,7 +410,7 @@ def report(prop, tier, seed, results, known, assumed, t0, verbose):
                 if x["obligation"] in done_:
                     continue
                 done_.add(x["obligation"])
-                fn = os.path.join(ROOT, "replays", prop, (x["obligation"] + ".json").replace("/", "_"))
+                fn = os.path.join(ROOT, "replays", prop, _safe_name(x["obligation"] + ".json"))
                 json.dump({"property": prop, "function": r["key"], "obligation": x["obligation"], "status": "refuted", "verifier_output": [],
                            "refutation_search": [x], "failing_input": x["model"], "native_replay": x["replay"],
                            "note": "the proof run stopped (" + r["error"].splitlines()[0][:160] + "); found by the bounded search, which unrolls loops"},
@@ -442,7 +447,7 @@ def report(prop, tier, seed, results, known, assumed, t0, verbose):
             if x["obligation"] in seen_extra:
                 continue
             seen_extra.add(x["obligation"])
-            fn = os.path.join(ROOT, "replays", prop, (x["obligation"] + ".json").replace("/", "_"))
+            fn = os.path.join(ROOT, "replays", prop, _safe_name(x["obligation"] + ".json"))
             json.dump({"property": prop, "function": r["key"], "obligation": x["obligation"], "status": "refuted",
                        "verifier_output": [], "refutation_search": [x], "failing_input": x["model"], "native_replay": x["replay"],
                        "note": "found by the bounded refutation search after " + ", ".join(sorted(failing)[:3]) + " could not be discharged"},
@@ -459,7 +464,7 @@ def report(prop, tier, seed, results, known, assumed, t0, verbose):
             sat_proof = any(o["status"] == "failed" for o in obs)
             mine = [x for x in refs if x["obligation"] == name]
             rep = next((x for x in reproduced if x["obligation"] == name), None)
-            fn = os.path.join(ROOT, "replays", prop, (name + ".json").replace("/", "_"))
+            fn = os.path.join(ROOT, "replays", prop, _safe_name(name + ".json"))
             doc = {"property": prop, "function": r["key"], "obligation": name,
                    "status": "refuted" if (sat_proof or mine) else "unknown",
                    "verifier_output": [{k: o[k] for k in ("path", "status", "backend", "detail", "line", "model")} for o in obs[:3]],
